@@ -96,6 +96,26 @@ Definition btx_dump (t : btx) : txdump :=
   | TxReject n id => (3, n, id, 0, [], [])
   end.
 
+(* 12: the group invariant of Proofs/BridgeGroup (C16) and 13: the notice invariant of Proofs/BridgeNotices
+   (C05), evaluated on every dumped model state: the hypotheses of the reachable-state theorems hold on the
+   exercised histories, starting with the initial state *)
+Fixpoint nodupb (l : list N) : bool :=
+  match l with [] => true | x :: r => negb (existsb (N.eqb x) r) && nodupb r end.
+Definition statusb (s : bstate) (a : N) (ok : N -> bool) : bool :=
+  match r_voter s !! a with Some v => ok (vt_status v) | None => false end.
+Definition ginvb (s : bstate) : bool :=
+  let ms := r_proposer s :: r_voters s in
+  nodupb (ms ++ r_on s) && forallb (fun a => statusb s a (fun st => (st =? 4) || (st =? 3))) ms
+  && forallb (fun a => statusb s a (fun st => st =? 2)) (r_on s)
+  && (1 <=? length (filter (fun a => negb (existsb (N.eqb a) (r_off s))) ms))%nat.
+Definition wstat (s : bstate) (id : N) : N := match b_wd s !! id with Some w => w_status w | None => 0 end.
+Definition noticesb (s : bstate) : bool :=
+  nodupb (g_paid s) && nodupb (g_refund s)
+  && forallb (fun id => wstat s id =? 5) (g_paid s) && forallb (fun id => wstat s id =? 4) (g_refund s)
+  && forallb (fun kv => let '(id, w) := kv in
+                if w_status w =? 5 then existsb (N.eqb id) (g_paid s)
+                else if w_status w =? 4 then existsb (N.eqb id) (g_refund s) else true) (map_to_list (b_wd s)).
+
 Definition bstep (chain : bytes) (mask : list bool) (s : bstate) (o : brop) (ob : bobs) : bstate * option N :=
   let '(cls, txs) := ob in
   match o with
@@ -104,7 +124,11 @@ Definition bstep (chain : bytes) (mask : list bool) (s : bstate) (o : brop) (ob 
     (s', if nth 10 mask false && negb (c =? cls) then Some 10
          else if nth 11 mask false && negb (bool_decide (map btx_dump t = txs)) then Some 11
          else None)
-  | RDump d => (s, bfirst_bad (firstn 10 mask) 0 s d)
+  | RDump d => (s, match bfirst_bad (firstn 10 mask) 0 s d with
+                    | Some c => Some c
+                    | None => if nth 2 mask false && negb (ginvb s) then Some 12
+                              else if nth 7 mask false && negb (noticesb s) then Some 13 else None
+                    end)
   end.
 
 Fixpoint brun (chain : bytes) (mask : list bool) (s : bstate) (i : N) (ops : list (brop * bobs)) : option (N * N) :=
